@@ -114,7 +114,7 @@ def model_graph(prog, entry):
                     # arguments are never analysed): the kept nodes reached below it carry its call-order dependence
                     sub = []
                     region(it["f"], sub, acc_loads, order)
-                    acc_kept.extend((p, fn_, True) for (p, fn_, _) in sub)
+                    acc_kept.extend((p, fn_, "class") for (p, fn_, _) in sub)
                 else:
                     region(it["f"], acc_kept, acc_loads, order)
             elif t == "load":
@@ -140,7 +140,13 @@ def model_graph(prog, entry):
 
     def sib(kept):
         for j, (p, g, rt) in enumerate(kept):
-            if rt:
+            if rt == "class":
+                # `C(x).m()` is two consecutive context-dependent interactions holding the same set of nodes: dds orders
+                # that set by signature, so the call-order edge may join any other node of the body to this one
+                for (q, _, _) in kept:
+                    if q != p:
+                        dotted_ok.add((q, p))
+            elif rt:
                 for (q, _, _) in kept[:j]:
                     if q != p:
                         dotted_ok.add((q, p))
